@@ -608,6 +608,7 @@ func writerGrowRules(c *Ctx, prop string) {
 		raw, n   int
 		grow     int
 		extended bool
+		arena    int // the buffer is the front of a larger array of the caller (NewWriterBuffer(arena[:n]))
 	}
 	var jobs []job
 	grows := []int{0, 1, 9, 120, 130, 300}
@@ -619,6 +620,7 @@ func writerGrowRules(c *Ctx, prop string) {
 			for _, g := range grows {
 				jobs = append(jobs, job{client: client, raw: sh[0], n: sh[1], grow: g, extended: g%2 == 1})
 			}
+			jobs = append(jobs, job{client: client, raw: sh[0], n: sh[1], grow: 9, arena: 512}, job{client: client, raw: sh[0], n: sh[1], grow: 120, arena: 512})
 		}
 	}
 	results := make([][]string, len(jobs))
@@ -637,13 +639,14 @@ func writerGrowRules(c *Ctx, prop string) {
 		m := c.machine()
 		var obj *fold.Obj
 		var out []string
-		desc := fmt.Sprintf("[client=%v len(raw)=%d reserve=%d buffered=%d Grow(%d)]", jb.client, jb.raw, off, jb.n, jb.grow)
+		desc := fmt.Sprintf("[client=%v len(raw)=%d cap(raw)=%d reserve=%d buffered=%d Grow(%d)]", jb.client, jb.raw, jb.raw+jb.arena, off, jb.n, jb.grow)
+		var rawBefore *fold.Obj
 		ps := m.Explore(f, func(mm *fold.Machine) []fold.Val {
-			cfg := writerCfg{rawLen: jb.raw, offset: off, n: jb.n, op: 2, client: jb.client}
+			cfg := writerCfg{rawLen: jb.raw, offset: off, n: jb.n, op: 2, client: jb.client, arena: jb.arena}
 			if jb.extended {
 				cfg.extra = 4
 			}
-			obj, _ = newWriterObj(mm, L, cfg)
+			obj, rawBefore = newWriterObj(mm, L, cfg)
 			return []fold.Val{fold.Ref{O: obj}, fold.K(int64(jb.grow))}
 		}, func(mm *fold.Machine, p *fold.Path) {
 			raw, ok1 := mm.Load(fold.Ref{O: obj, Path: []int{L.raw}}).(fold.SliceV)
@@ -663,6 +666,10 @@ func writerGrowRules(c *Ctx, prop string) {
 				if int(raw.Len) != jb.raw || int(buf.Len) != jb.raw-off {
 					out = append(out, "Grow reallocates although the bytes already fit "+desc)
 				}
+				return
+			}
+			if raw.O == rawBefore && int(raw.Len) > jb.raw {
+				out = append(out, fmt.Sprintf("Grow extends the buffer in place to %d bytes: with a buffer from NewWriterBuffer(arena[:n]) the writer takes over, and overwrites, the caller's memory behind the buffer %s", raw.Len, desc))
 				return
 			}
 			newOff := int(raw.Len - buf.Len)
